@@ -8,6 +8,7 @@ package main
 import (
 	"sync/atomic"
 
+	"git.torproject.org/pluggable-transports/snowflake.git/v2/common/verifhook"
 	"github.com/prometheus/client_golang/prometheus"
 	dto "github.com/prometheus/client_model/go"
 	"google.golang.org/protobuf/proto"
@@ -32,6 +33,7 @@ type roundedCounter struct {
 // Implements the RoundedCounter interface
 func (c *roundedCounter) Inc() {
 	atomic.AddUint64(&c.total, 1)
+	verifhook.Point("broker.roundedcounter.inc")
 	if c.total > c.value {
 		atomic.AddUint64(&c.value, 8)
 	}
